@@ -176,9 +176,9 @@ theorem rinv_step (cfg : RCfg) {log : List Rec} {s : RR} (e : REv) (h : RInv log
               subst hst'
               have h0 : 0 ≤ resolve s.offset first last := by
                 unfold resolve
-                by_cases a : s.offset = -1
+                by_cases a : s.offset = -2
                 · simp [a]; exact hf0
-                · by_cases b : s.offset = -2
+                · by_cases b : s.offset = -1
                   · simp [b]; omega
                   · simp only [a, b, if_false]; split <;> omega
               exact ⟨h0, by simp, by simp [hm0], by intro r _ h1 h2; simp only at h2; omega⟩
@@ -189,8 +189,8 @@ theorem rinv_step (cfg : RCfg) {log : List Rec} {s : RR} (e : REv) (h : RInv log
             obtain ⟨b0, b1, _, _⟩ := h.bounds st hst
             have hres : resolve s.offset first last = if s.offset < first then first else s.offset := by
               unfold resolve
-              have a : ¬ s.offset = -1 := by omega
-              have b : ¬ s.offset = -2 := by omega
+              have a : ¬ s.offset = -2 := by omega
+              have b : ¬ s.offset = -1 := by omega
               simp [a, b]
             apply rinv_seek h (by simp [hst]) (resolve s.offset first last)
             · rw [hres]; split <;> omega
